@@ -498,10 +498,13 @@ func c06Cross(scanner string, text []byte, docEvs []c06Event, pos func(int) int,
 		evs, err = c06SchemaEvents(text, false)
 	case "schema-length":
 		evs, err = c06SchemaEvents(text, true)
-	case "enum":
-		evs, err = c06EnumEvents(text, false)
-	case "enum-length":
-		evs, err = c06EnumEvents(text, true)
+	case "enum", "enum-length":
+		// every second text: the same enum cut off after its last comma was scanned just before
+		// (a rule that is still being typed); what that scan leaves behind must not reach this one
+		if i := bytes.LastIndexByte(text, ','); i > 0 && len(text)%2 == 0 {
+			c06EnumEvents(text[:i+1], scanner == "enum-length")
+		}
+		evs, err = c06EnumEvents(text, scanner == "enum-length")
 	default:
 		return "unknown scanner " + scanner
 	}
@@ -598,7 +601,7 @@ func c06Pretty(text []byte, root *refjson.Node) (pretty []byte, annot, comment [
 	return sb.Bytes(), annot, comment
 }
 
-var c06AnnotSnippets = []string{" // {enum: [\"x\", \"\\u0079\"]}", " /* {\"\\u006din\": 0} - n\\u0041 */", " // {regex: \"\\u0061+\"} - \\u note"," // a note # a comment", " // note", " // {optional: false} - note # comment", " // {min: 1, type: \"integer\"}", " /* note */", " /* {or: [\"integer\", {type: \"string\"}]} - note */ # c",
+var c06AnnotSnippets = []string{" // {enum: [\"x\", \"\\u0079\"]}", " /* {\"\\u006din\": 0} - n\\u0041 */", " // {regex: \"\\u0061+\"} - \\u note", " // a note # a comment", " // note", " // {optional: false} - note # comment", " // {min: 1, type: \"integer\"}", " /* note */", " /* {or: [\"integer\", {type: \"string\"}]} - note */ # c",
 	" // {enum: [1, \"a\"]} -", " # c", " #"}
 
 // c06PrettyEmbedded: the pretty layout with annotations (rules and notes) and user comments at
